@@ -1,3 +1,4 @@
+#include <execinfo.h>
 // w2.cc -- World W2: the REAL os/linux/daemon/linux-embedded-main.c + os/linux/lltd_port.c + core over a
 // simulated libc/kernel.  Owns: NIC table, sockets, virtual clock, allocator with fault plan, and the
 // thread scheduler (exactly one daemon thread runs at a time; every wrapped libc call and - in the
@@ -72,12 +73,13 @@ struct W2Plan {
     int64_t getifaddrs_fail_from = -1; // getifaddrs calls with index >= this fail
     std::string hostname = "host";
     std::string expect_class;
+    int repeat = 1;              // the event history is played this many times in a row, then every interface receives a topology Reset (retained-memory oracle)
 };
 static std::string w2plan_to_text(const W2Plan &p) {
     std::ostringstream s;
     s << "w2plan v1\nprop " << p.prop << "\nfamily " << p.family << "\nseed " << p.seed << "\nt0 " << p.t0 << "\np_call " << p.p_call << "\np_mem " << p.p_mem
       << "\npct " << p.pct_thread << " " << p.pct_access << "\nmalloc_fail_at " << p.malloc_fail_at << "\nsendfail_mask " << p.sendfail_mask << "\nsend_short " << p.send_short
-      << "\ngetifaddrs_fail_from " << p.getifaddrs_fail_from << "\nhostname " << hex((const uint8_t *)p.hostname.data(), p.hostname.size()) << "\nexpect_class " << (p.expect_class.empty() ? "-" : p.expect_class) << "\n";
+      << "\ngetifaddrs_fail_from " << p.getifaddrs_fail_from << "\nhostname " << hex((const uint8_t *)p.hostname.data(), p.hostname.size()) << "\nexpect_class " << (p.expect_class.empty() ? "-" : p.expect_class) << "\nrepeat " << p.repeat << "\n";
     for (auto &n : p.nics)
         s << "nic " << n.name << " " << hex(n.mac.a, 6) << " " << n.mtu << " " << n.loopback << " " << n.ipv4 << " " << n.has4 << " " << hex(n.ipv6, 16) << " " << n.has6 << " " << n.mtu_ioctl_fails << " " << n.socket_fails << "\n";
     for (auto &e : p.evs) s << "ev " << e.t << " " << e.nic << " " << e.kind << " " << e.a << " " << e.b << " " << e.c << " " << (e.frame.empty() ? "-" : hex(e.frame.data(), e.frame.size())) << "\n";
@@ -100,6 +102,7 @@ static bool w2plan_from_text(const std::string &text, W2Plan &p) {
         else if (k == "p_call") ls >> p.p_call; else if (k == "p_mem") ls >> p.p_mem; else if (k == "pct") ls >> p.pct_thread >> p.pct_access;
         else if (k == "malloc_fail_at") ls >> p.malloc_fail_at; else if (k == "sendfail_mask") ls >> p.sendfail_mask; else if (k == "send_short") ls >> p.send_short;
         else if (k == "getifaddrs_fail_from") ls >> p.getifaddrs_fail_from;
+        else if (k == "repeat") ls >> p.repeat;
         else if (k == "hostname") { std::string h; ls >> h; Bytes b = unhex(h); p.hostname.assign(b.begin(), b.end()); }
         else if (k == "expect_class") { ls >> p.expect_class; if (p.expect_class == "-") p.expect_class.clear(); }
         else if (k == "nic") {
@@ -218,6 +221,24 @@ static W2Plan gen_w2(const std::string &prop, uint64_t vseed, uint64_t index) {
             if (r.chance(0.6)) e.c |= (uint32_t)(1 + r.below(5)) << 24; // the record's device kind (bond, bridge, ethernet, 802.11, vlan), top byte, 0 = as the daemon set it
             p.evs.push_back(e);
             if (r.chance(0.3)) p.nics[i].loopback = true;
+        }
+    }
+    if (prop == "C19") { // longer well-formed sessions, handled frame by frame (the oracle compares one pass of the history with three)
+        p.p_call = r.chance(0.7) ? 0.0 : 0.3; p.p_mem = 0; p.pct_thread = -1;
+        int extra = (int)r.range(0, 25);
+        for (int k = 0; k < extra; k++) {
+            W2Ev e;
+            e.nic = (int)r.below(p.nics.size()); e.t = p.t0 + (uint64_t)r.range(20, 900);
+            const NicCfg &n = p.nics[e.nic];
+            Mac m1 = st_mac(seed, 10 + e.nic * 2);
+            switch (r.below(5)) {
+            case 0: e.frame = wire::header(n.mac, m1, 0, wire::W_QLT, n.mac, m1, (uint16_t)r.range(1, 65535)); e.frame.push_back((uint8_t)r.pickl({0x11, 0x11, 0x0E, 0x13})); e.frame.push_back(0); e.frame.push_back(0); e.frame.push_back((uint8_t)r.below(20)); break;
+            case 1: { Mac s = st_mac(seed, 300 + (int)r.below(200)); e.frame = wire::header(n.mac, s, 0, r.chance(0.5) ? wire::W_PROBE : wire::W_TRAIN, n.mac, s, 0); break; }
+            case 2: e.frame = wire::header(n.mac, m1, 0, wire::W_QUERY, n.mac, m1, (uint16_t)r.range(1, 65535)); break;
+            case 3: e.frame = f_discover(m1, r.chance(0.8) ? 0 : 1, (uint16_t)r.next(), (uint16_t)r.range(1, 65535), {}); break;
+            default: e.frame = wire::header(MAC_BCAST, m1, r.chance(0.7) ? 0 : 1, wire::W_RESET, MAC_BCAST, m1, 0); break;
+            }
+            p.evs.push_back(e);
         }
     }
     if (prop == "C18") { // libc-level faults
@@ -444,6 +465,14 @@ void __tsan_write_range(void *a, unsigned long n) { on_access((uintptr_t)a, n, t
 // ---------------------------------------------------------------- simulated libc / kernel (symbols of the repo objects are redirected here by objcopy --redefine-sym)
 static std::string cur_site() {
     if (tl_id >= 0 && tl_id < (int)g_th.size() && !g_th[tl_id]->stack.empty()) return sym_of(g_th[tl_id]->stack.back());
+    // builds without function-entry callbacks: first frame of the call stack that is repository code other than the port's malloc wrapper
+    void *bt[8];
+    int n = backtrace(bt, 8);
+    for (int i = 1; i < n; i++) {
+        std::string f = sym_of((uintptr_t)bt[i]);
+        if (f.empty() || f == "?" || f.compare(0, 3, "w2_") == 0 || f == "led_alloc" || f == "cur_site" || f == "lltd_port_malloc" || f.find("led_alloc") != std::string::npos || f.find("cur_site") != std::string::npos) continue;
+        return f;
+    }
     return "daemon";
 }
 static void *led_alloc(size_t size, bool zero) {
@@ -503,6 +532,7 @@ int w2_ioctl(int fd, unsigned long req, void *argp) {
     if (req == SIOCGIFFLAGS) { ifr->ifr_flags = (short)(IFF_UP | IFF_RUNNING | (n->cfg.loopback ? IFF_LOOPBACK : 0)); return 0; }
     errno = EINVAL; return -1;
 }
+static int64_t g_ifaddrs_outstanding = 0;
 int w2_getifaddrs(struct ifaddrs **out) {
     int64_t idx = (int64_t)g_getifaddrs_idx++;
     if (g_plan.getifaddrs_fail_from >= 0 && idx >= g_plan.getifaddrs_fail_from) { g_probe["getifaddrs_fault_fired"]++; errno = ENOMEM; return -1; }
@@ -521,10 +551,11 @@ int w2_getifaddrs(struct ifaddrs **out) {
         }
     }
     *out = head;
+    g_ifaddrs_outstanding++;
     yield_point(false);
     return 0;
 }
-void w2_freeifaddrs(struct ifaddrs *a) { while (a) { struct ifaddrs *n = a->ifa_next; free(a->ifa_name); free(a->ifa_addr); free(a); a = n; } }
+void w2_freeifaddrs(struct ifaddrs *a) { if (a) g_ifaddrs_outstanding--; while (a) { struct ifaddrs *n = a->ifa_next; free(a->ifa_name); free(a->ifa_addr); free(a); a = n; } }
 int w2_gethostname(char *buf, size_t len) { size_t n = std::min(len ? len - 1 : 0, g_plan.hostname.size()); memcpy(buf, g_plan.hostname.data(), n); if (len) buf[n] = 0; return 0; }
 int w2_clock_gettime(clockid_t, struct timespec *ts) { ts->tv_sec = (time_t)(g_now / 1000); ts->tv_nsec = (long)(g_now % 1000) * 1000000L; return 0; }
 int w2_nanosleep(const struct timespec *req, struct timespec *) {
@@ -667,6 +698,9 @@ static void finish_run() {
     o << "HASH " << g_log.h << "\n";
     for (size_t i = 0; i < g_nic.size(); i++) o << "NIC " << i << " " << g_nic[i].txhash.h << " " << g_nic[i].txcount << "\n";
     o << "RECS " << recs << " " << ifs << "\n";
+    { uint64_t lb = 0, ly = 0; std::map<std::string, uint64_t> per; for (auto &kv : g_heap) if (!kv.second.freed) { lb++; ly += kv.second.size; per[kv.second.site]++; }
+      o << "LIVE " << lb << " " << ly << " " << g_ifaddrs_outstanding << "\n";
+      for (auto &kv : per) o << "LSITE " << kv.second << " " << kv.first << "\n"; }
     for (auto &r : g_races) o << "RACE " << r << "\n";
     for (auto &v : g_viol) o << "VIOL " << v.first << "\t" << v.second << "\n";
     g_probe["preemptions"] += g_preempt; g_probe["mem_callbacks"] += g_mem_callbacks; g_probe["yield_points"] += g_yields; g_probe["sim_ms"] += g_now - g_plan.t0;
@@ -685,6 +719,20 @@ static void run_child(const W2Plan &p, int only_nic, int fd) {
         g_plan.evs = keep;
         g_plan.p_call = 0; g_plan.p_mem = 0; g_plan.pct_thread = -1;
     }
+    if (g_plan.repeat >= 1 && (p.prop == "C19" || p.prop == "C18")) {
+        // play the history `repeat` times back to back, then end every interface's session with a topology Reset
+        std::vector<W2Ev> body = g_plan.evs, all;
+        uint64_t span = 1000;
+        for (auto &e : body) span = std::max(span, e.t - p.t0 + 1000);
+        for (int k = 0; k < g_plan.repeat; k++) for (auto e : body) { if (k > 0 && e.kind == EV_LINK) continue; e.t += span * (uint64_t)k; all.push_back(e); }
+        for (size_t i = 0; i < g_plan.nics.size(); i++) {
+            W2Ev e; e.nic = (int)i; e.kind = EV_FRAME; e.t = p.t0 + span * (uint64_t)g_plan.repeat + 500;
+            Mac m = st_mac(p.seed, 10 + (int)i * 2);
+            e.frame = wire::header(MAC_BCAST, m, 0, wire::W_RESET, MAC_BCAST, m, 0);
+            all.push_back(e);
+        }
+        g_plan.evs = all;
+    }
     g_rng.reseed(mix64(p.seed, 0x5CED));
     g_result_fd = fd;
     g_now = p.t0;
@@ -700,7 +748,7 @@ static void run_child(const W2Plan &p, int only_nic, int fd) {
 }
 
 // ================================================================ parent side
-struct ChildRes { bool ok = false, crashed = false; uint64_t hash = 0; std::vector<std::pair<uint64_t, uint64_t>> nic; uint64_t recs = 0, ifs = 0; std::vector<std::string> races; std::vector<std::pair<std::string, std::string>> viol; std::map<std::string, uint64_t> probe; std::string crash_text; };
+struct ChildRes { uint64_t live_blocks = 0, live_bytes = 0; int64_t ifaddrs_out = 0; std::map<std::string, uint64_t> live_site; bool ok = false, crashed = false; uint64_t hash = 0; std::vector<std::pair<uint64_t, uint64_t>> nic; uint64_t recs = 0, ifs = 0; std::vector<std::string> races; std::vector<std::pair<std::string, std::string>> viol; std::map<std::string, uint64_t> probe; std::string crash_text; };
 static std::string g_tmp = "build/tmp";
 static ChildRes exec_child_once(const W2Plan &p, int only_nic) {
     ChildRes r;
@@ -735,6 +783,8 @@ static ChildRes exec_child_once(const W2Plan &p, int only_nic) {
             if (k == "HASH") ls >> r.hash;
             else if (k == "NIC") { int i; uint64_t h, c; ls >> i >> h >> c; r.nic.push_back({h, c}); }
             else if (k == "RECS") ls >> r.recs >> r.ifs;
+            else if (k == "LIVE") ls >> r.live_blocks >> r.live_bytes >> r.ifaddrs_out;
+            else if (k == "LSITE") { uint64_t c; ls >> c; std::string site; std::getline(ls, site); if (!site.empty() && site[0] == ' ') site.erase(0, 1); r.live_site[site] = c; }
             else if (k == "RACE") r.races.push_back(line.substr(5));
             else if (k == "VIOL") { std::string rest = line.substr(5); auto t = rest.find('\t'); r.viol.push_back({rest.substr(0, t), t == std::string::npos ? "" : rest.substr(t + 1)}); }
             else if (k == "PROBE") { std::string nme; uint64_t v; ls >> nme >> v; r.probe[nme] += v; }
@@ -782,6 +832,21 @@ static std::vector<Verdict> evaluate(const W2Plan &p, ChildRes *joint_out, std::
         if (p.prop == "C04" && !linux_half) continue;
         if (p.prop == "C17" || p.prop == "C01") continue; // wire-format clauses belong to the other checks
         v.push_back({p.prop + ":" + x.first, x.second});
+    }
+    if (p.prop == "C19" || p.prop == "C18") {
+        // retained memory must not depend on the length of the history: the same history three times over, each followed by the
+        // closing Resets, leaves exactly as many live allocations behind as one pass does (and no address list of getifaddrs)
+        if (j.ifaddrs_out != 0) v.push_back({p.prop + ":linux-ifaddrs-not-released", std::to_string((long long)j.ifaddrs_out) + " getifaddrs() list(s) never handed to freeifaddrs()"});
+        W2Plan q = p;
+        q.repeat = p.repeat * 3;
+        ChildRes k = exec_child(q, -1);
+        if (probes) (*probes)["retained_compared"]++;
+        if (k.ok && j.ok && k.live_blocks > j.live_blocks) {
+            std::string where;
+            for (auto &kv : k.live_site) { uint64_t a = j.live_site.count(kv.first) ? j.live_site[kv.first] : 0; if (kv.second > a) where += (where.empty() ? "" : ", ") + kv.first + " " + std::to_string(a) + " -> " + std::to_string(kv.second); }
+            v.push_back({p.prop + ":linux-retained-grows-with-history", "live allocations after the closing Resets: " + std::to_string(j.live_blocks) + " after one pass of the history, " + std::to_string(k.live_blocks) + " after three (" + where + ")"});
+        }
+        if (k.crashed) { std::string d; std::string c = crash_class(k.crash_text, d); v.push_back({p.prop + ":" + c, d}); }
     }
     if (p.prop == "C17") {
         for (auto &r : j.races) v.push_back({"C17:data-race", r});
@@ -866,7 +931,7 @@ int main(int argc, char **argv) {
         return 1;
     }
     if (mode == "genplan") { printf("%s", w2plan_to_text(gen_w2(prop, vseed, max_runs)).c_str()); return 0; }
-    if (mode != "check" || prop.empty()) { fprintf(stderr, "usage: w2sim check <C01|C04|C17|C18> ... | replay <file>\n"); return 2; }
+    if (mode != "check" || prop.empty()) { fprintf(stderr, "usage: w2sim check <C01|C04|C17|C18|C19> ... | replay <file>\n"); return 2; }
     bool thorough = tier == "thorough";
     if (secs <= 0) secs = thorough ? 300 : 15;
     if (!max_runs) max_runs = 100000000ull;
